@@ -15,36 +15,6 @@ From Mamba Require Import Canon.AutBase Canon.Aut Canon.Group.
 Import ListNotations.
 Open Scope nat_scope.
 
-(* ---------------------------------------------------------------- model of the branch *)
-(* tmp[j] = j for all j; then tmp[bin[j]] = bin[(j+1) % len(bin)] for all j *)
-Definition cycle_gen (n : nat) (bin : list nat) : perm :=
-  fold_left (fun t j => upd t (nth j bin 0) (nth (S j mod length bin) bin 0))
-            (seq 0 (length bin)) (idp n).
-
-(* tmp[j] = j for all j; tmp[bin[0]] = bin[1]; tmp[bin[1]] = bin[0] *)
-Definition transp (n a b : nat) : perm := upd (upd (idp n) a b) b a.
-
-Definition bin_gens (n : nat) (bin : list nat) : list perm :=
-  match bin with
-  | [] | [_] => []
-  | [a; b] => [cycle_gen n bin]
-  | a :: b :: _ => [cycle_gen n bin; transp n a b]
-  end.
-
-Definition edgeless_gens (n : nat) (cells : list (list nat)) : list perm :=
-  flat_map (bin_gens n) cells.
-
-(* ds[bin[0]] = -1 (singleton) or -2; ds[v] = bin[0] for the other members *)
-Definition bin_ds (ds : dset) (bin : list nat) : dset :=
-  match bin with
-  | [] => ds
-  | [a] => upd ds a (-1)%Z
-  | a :: rest => fold_left (fun d v => upd d v (Z.of_nat a)) rest (upd ds a (-2)%Z)
-  end.
-
-Definition edgeless_ds (old : dset) (cells : list (list nat)) : dset :=
-  fold_left bin_ds cells old.
-
 (* the cells are the bins of an ordered partition of 0..n-1 *)
 Definition cells_ok (n : nat) (cells : list (list nat)) : Prop :=
   NoDup (concat cells) /\ (forall x, In x (concat cells) <-> x < n) /\ ~ In [] cells.
